@@ -130,6 +130,7 @@ var propImports = map[string][]imp{
 		{"C05.14/ownership", "C17", "the saved route and the reply are not aliased with recycled buffers", []string{"C17.1/E5|protocol/rep", "C17.1/E5|protocol/respondent", "C17.1/E5|protocol/xrep", "C17.1/E5|protocol/xrespondent"}},
 	},
 	"C06": {
+		{"C06.16/derived-coherent", "C11", "PUB reaches every subscriber: a list of subscribers kept beside the table of pipes is rebuilt or cleared in the same critical section as every change of the table", []string{"C11.16/derived-coherent"}},
 		{"C06.15/unique-primitive", "C01", "MakeUnique copies before it gives up its reference: two contexts making the same publication their own at the same time each end up with an intact private copy", []string{"C01.1/pool|MakeUnique"}},
 		{"C06.14/api-copies", "C01", "a delivered body is a private copy: it does not change when later messages arrive", []string{"C01.8/api-copies"}},
 		{"C06.13/one-connection-per-dialer", "C14", "a dialer re-establishes one connection per loss: a second connection to the same publisher delivers every message twice", []string{"C14.5/redial-after-loss", "C14.2/backoff"}},
@@ -138,12 +139,14 @@ var propImports = map[string][]imp{
 		{"C06.11/E3", "C11", "subscription state is accessed under the socket lock", []string{"C11.1/E3|protocol/sub", "C11.1/E3|protocol/xsub", "C11.1/E3|protocol/xpub"}},
 	},
 	"C07": {
+		{"C07.21/derived-coherent", "C11", "every connected respondent is sent each survey: a list of respondents kept beside the table of pipes is rebuilt or cleared in the same critical section as every change of the table", []string{"C11.16/derived-coherent"}},
 		{"C07.20/id-freshness", "C13", "a raw RESPONDENT routes an answer by the id of the connection the survey came in on: the id of a surveyor that has gone is not handed to the next one to connect", []string{"C13.8/allocator"}},
 		{"C07.17/fresh-backing", "C17", "each survey's backtrace lives in memory of its own", []string{"C17.7/fresh-backing-per-message|protocol/xrespondent", "C17.7/fresh-backing-per-message|protocol/respondent", "C17.7/fresh-backing-per-message|protocol/xsurveyor", "C17.7/fresh-backing-per-message|protocol/surveyor"}},
 		{"C07.15/queue-sizing", "C19", "every connected respondent is sent each survey, queue space permitting: the space is the configured one", []string{"C19.6/queue-length-agrees|protocol/surveyor", "C19.6/queue-length-agrees|protocol/xsurveyor", "C19.6/queue-length-agrees|protocol/respondent", "C19.6/queue-length-agrees|protocol/xrespondent", "C19.4/inheritance|protocol/surveyor", "C19.4/inheritance|protocol/respondent"}},
 		{"C07.16/E3", "C11", "survey state is accessed under the socket lock", []string{"C11.1/E3|protocol/surveyor", "C11.1/E3|protocol/xsurveyor", "C11.1/E3|protocol/respondent", "C11.1/E3|protocol/xrespondent"}},
 	},
 	"C08": {
+		{"C08.18/derived-coherent", "C11", "BUS and STAR reach every other member: a list of members kept beside the table of pipes is rebuilt or cleared in the same critical section as every change of the table", []string{"C11.16/derived-coherent"}},
 		{"C08.17/waited-channel-stable", "C19", "a STAR receiver waiting for room in the socket's receive queue, and a per-peer sender waiting on its queue, keep forwarding after a queue option is changed: a goroutine left on a replaced channel stops that peer's traffic for good", []string{"C19.21/waited-channel-stable|protocol/xstar", "C19.21/waited-channel-stable|protocol/xbus"}},
 		{"C08.16/redial-timer", "C14", "one connection per dialer: the redial timer is armed only by the two places that schedule a redial (a spent timer re-armed by an option setter dials a second connection, and every message then arrives twice)", []string{"C14.13/timer-discipline|redialer"}},
 		{"C08.14/inproc-copies", "C01", "each member gets a message of its own over inproc too (the hop count one member bumps is not the other's)", []string{"C01.7/inproc"}},
